@@ -173,11 +173,20 @@ fn decode(data: &[u8]) -> (Gram, Vec<inputs::InputSpec>) {
         drop_named(hw, hc, &mut r.expr);
     }
     gram::repair(&mut g);
+    // input specs: a pseudo-random stream keyed by the whole input (libFuzzer's units are mostly shorter than a
+    // grammar plus a dozen specs, and an exhausted cursor would make every derivation choice zero)
     let mut specs = vec![];
-    for _ in 0..6 {
-        let kind = c.byte() % 4;
-        let n = 4 + c.below(20);
-        let choices = (0..n).map(|_| u16::from_le_bytes([c.byte(), c.byte()])).collect();
+    let mut x = fw::hash_of(data);
+    for _ in 0..12 {
+        x = fw::splitmix(x);
+        let kind = (x % 4) as u8;
+        let n = 4 + (x >> 8) as usize % 36;
+        let choices = (0..n)
+            .map(|_| {
+                x = fw::splitmix(x);
+                x as u16
+            })
+            .collect();
         specs.push(inputs::InputSpec { kind, choices });
     }
     (g, specs)
@@ -199,10 +208,21 @@ fn report(prop: &str, f: fw::Fail) {
 }
 
 fuzz_target!(|data: &[u8]| {
+    // libfuzzer-sys aborts inside its panic hook, before any catch_unwind of the oracles can classify the panic:
+    // replace the hook once (a panic that escapes the target still aborts in libfuzzer-sys's own wrapper)
+    static HOOK: std::sync::Once = std::sync::Once::new();
+    HOOK.call_once(|| std::panic::set_hook(Box::new(|info| eprintln!("panic: {info}"))));
+    // process-global switches of the code under test, reset at the top of every iteration
+    pest::set_call_limit(None);
+    pest::set_error_detail(false);
+    pest_meta::validator::verif::reset(usize::MAX);
     if data.len() < 16 {
         return;
     }
     let (g, specs) = decode(&data[1..]);
+    if std::env::var_os("PV_DUMP").is_some() {
+        eprintln!("--- grammar:\n{}specs: {:?}", gram::print_grammar(&g), specs.iter().map(|s| (s.kind, s.choices.len())).collect::<Vec<_>>());
+    }
     let mut ctx = fw::Ctx::bare("C01");
     if let Err(f) = c01::check_case(&mut ctx, &g, &specs) {
         report("C01", f);
@@ -210,7 +230,7 @@ fuzz_target!(|data: &[u8]| {
     match data[0] / 4 % 4 {
         0 => {
             let mut ctx = fw::Ctx::bare("C05");
-            if let Err(f) = c05::check_grammar(&mut ctx, &g, 2) {
+            if let Err(f) = c05::check_grammar(&mut ctx, &g, 3) {
                 report("C05", f);
             }
         }
